@@ -59,7 +59,7 @@ class C12(Check):
                 # transient: the k-th engine check of this one call answers unknown (with an
                 # objective a call runs several checks), later calls are fault-free
                 k = rng.choice([0, 0, 1, 2]) if spec.get("objectives") else 0
-                step["env"] = [{} for _ in range(k)] + [{"verdict": "unknown", "reason": "canceled"}]
+                step["env"] = [{} for _ in range(k)] + [{"verdict": "unknown", "reason": "canceled"} if rng.random() < 0.6 else {"interrupt": True}]
             elif nudged and rng.random() < 0.7:
                 step["default"] = {"steer": self.steer(rng, 200 + j, later=True) or {"mode": "greedy", "key": 200 + j}}
             plan["script"].append(step)
@@ -103,6 +103,11 @@ class C12(Check):
                 continue
             if out == "no_progress":
                 v.violate("C12", "no_progress/" + op, kinds, ev.get("exc"), ev["seq"], "A")
+                continue
+            if out == "interrupted":
+                # Ctrl-C inside the call: its blocking clause is in, no schedule came back; the
+                # enumeration goes on and must still visit everything
+                v.probe("interrupted_then_continued")
                 continue
             if out == "slow_convergence":
                 v.probe("step_cap_on_monotone_descent(inconclusive)")
